@@ -44,6 +44,9 @@ def programs(tier: str, flavour: str = "full"):
             progs += P(4, 3, min_leaves=4, repeats=False, ops="+*")
             progs += P(2, 4, literals=LITS_THOROUGH, min_leaves=2)
             progs += P(3, 3, literals=("2", "2.5"), min_leaves=3, repeats=False)
+    # literals whose int32 lowering overflows: 65536 * 65536, 2^32 (the shortcut in identifiable_expression/_to_ir.py)
+    progs += P(3, 1, literals=("65536",), min_leaves=3, ops="*", repeats=False, target_orders=(0, 1))
+    progs += P(2, 1, literals=("4294967296", "99999999999"), min_leaves=2, ops="*+", repeats=False, target_orders=(0, 1))
     # programs made only of literals are excluded here (no operand to enumerate); C08 covers them
     progs = [p for p in progs if any(l[0] == "t" for l in space.tree_leaves(p[2]))]
     return dedupe(progs)
